@@ -84,35 +84,35 @@ Acceptable(r, c, mt) ==
   /\ RefBlobs(c, mt) \subseteq blobs[r]
   /\ RefMans(c, mt) \subseteq DOMAIN mans[r]
 
-\* Reachability from tags.  Nodes are <<manifest, media type it is read under>>.
-\* `declared` = TRUE: a child is read under the type its parent's descriptor declares
-\* (what ocimem computes); FALSE: under the type it is stored under.
-ChildNodes(r, n, declared) ==
-  IF ~Has(mans[r], n[1]) \/ ~View(n[1], n[2]).wf THEN {}
-  ELSE LET v == View(n[1], n[2])
-           kids == {<<x[1], IF declared THEN x[2] ELSE
-                             IF Has(mans[r], x[1]) THEN mans[r][x[1]] ELSE x[2]>> : x \in v.mans}
-           \* a subject is followed too, read under its stored type if present
-           sub == IF v.subject = None THEN {}
-                  ELSE {<<v.subject, IF declared THEN v.subjectType ELSE
-                           IF Has(mans[r], v.subject) THEN mans[r][v.subject] ELSE v.subjectType>>}
-       IN kids \cup sub
+\* Reachability from tags.  Nodes are <<manifest, media type its referrer declares>>; a tag
+\* declares the type it was pushed with.  A present manifest can be read under the type it
+\* is stored with (what GetManifest serves) or under the declared one.
+\* mixed = FALSE: stored type only (the references the registry itself vouches for);
+\* mixed = TRUE: both (what ocimem follows).
+Readings(r, n, mixed) ==
+  IF ~Has(mans[r], n[1]) THEN {}
+  ELSE {mans[r][n[1]]} \cup (IF mixed THEN {n[2]} ELSE {})
+KidsUnder(c, mt) ==
+  LET v == View(c, mt) IN
+  IF ~v.wf THEN {}
+  ELSE v.mans \cup (IF v.subject = None THEN {} ELSE {<<v.subject, v.subjectType>>})
+ChildNodes(r, n, mixed) == UNION {KidsUnder(n[1], mt) : mt \in Readings(r, n, mixed)}
 RECURSIVE ReachN(_, _, _, _)
-ReachN(r, frontier, seen, declared) ==
+ReachN(r, frontier, seen, mixed) ==
   IF frontier = {} THEN seen
-  ELSE LET new == UNION {ChildNodes(r, n, declared) : n \in frontier}
-       IN ReachN(r, new \ seen, seen \cup new, declared)
+  ELSE LET new == UNION {ChildNodes(r, n, mixed) : n \in frontier}
+       IN ReachN(r, new \ seen, seen \cup new, mixed)
 Roots(r) == {<<tags[r][t].c, tags[r][t].mt>> : t \in DOMAIN tags[r]}
-ReachNodes(r, declared) == ReachN(r, Roots(r), Roots(r), declared)
-ReachMans(r, declared) == {n[1] : n \in ReachNodes(r, declared)}
-ReachBlobs(r, declared) ==
-  UNION {RefBlobs(n[1], n[2]) : n \in {x \in ReachNodes(r, declared) : Has(mans[r], x[1]) /\ View(x[1], x[2]).wf}}
+ReachNodes(r, mixed) == ReachN(r, Roots(r), Roots(r), mixed)
+ReachMans(r, mixed) == {n[1] : n \in ReachNodes(r, mixed)}
+ReachBlobs(r, mixed) ==
+  UNION {UNION {IF View(n[1], mt).wf THEN RefBlobs(n[1], mt) ELSE {} : mt \in Readings(r, n, mixed)} : n \in ReachNodes(r, mixed)}
 \* protection that MUST be given (C14: everything a tagged manifest transitively
 \* references remains retrievable) and protection that MAY be given.
 MustKeepBlob(r, c) == imm /\ c \in ReachBlobs(r, FALSE)
-MayKeepBlob(r, c) == imm /\ c \in (ReachBlobs(r, FALSE) \cup ReachBlobs(r, TRUE))
+MayKeepBlob(r, c) == imm /\ c \in ReachBlobs(r, TRUE)
 MustKeepMan(r, c) == imm /\ c \in ReachMans(r, FALSE)
-MayKeepMan(r, c) == imm /\ c \in (ReachMans(r, FALSE) \cup ReachMans(r, TRUE))
+MayKeepMan(r, c) == imm /\ c \in ReachMans(r, TRUE)
 
 \* ----------------------------------------------------------------- init --
 Init ==
